@@ -531,7 +531,19 @@ def cd4(ctx):
     ft = [b for b in list(ctx.f.bodies.values()) + list(ctx.f.dropped_helpers) if b.ret_ty == FT and b.arg_count == 2 and b.local_ty(1) == 'bool' and b.local_ty(2) == 'bool']
     isf = ctx.fn('frame::header::FrameType::is_first_frame_of_record')
     isl = ctx.fn('frame::header::FrameType::is_last_frame_of_record')
-    if not ft or not isf or not isl:
+    prot = frame_protocol(ctx)
+    prot_tab = None
+    if prot is not None and not prot['exhausted'] and all(len(prot['obs'].get(k_, ())) == 1 and None not in prot['obs'][k_] for k_ in ((True, True), (True, False), (False, True), (False, False))):
+        prot_tab = {k_: list(v_)[0] for k_, v_ in prot['obs'].items() if k_[1] is not None}
+    if isf and isl and prot_tab is not None:
+        # what the writer's loop actually hands to the frame writer for (first round?, nothing remains?), however it is
+        # computed (a (bool, bool) table, enums, a method of FrameType ..): must be what the reader's predicates expect
+        tf = fn_table_enum_to_bool(ctx, isf[0])
+        tl = fn_table_enum_to_bool(ctx, isl[0])
+        ok = all(tf.get(v_) == k_[0] and tl.get(v_) == k_[1] for k_, v_ in prot_tab.items())
+        ctx.check(ok and len(set(prot_tab.values())) == 4, 'frame-type-roundtrip', prot['body'].span, 'is_first(type written) == first round and is_last(type written) == nothing remains, for all four combinations (%s)' % prot_tab,
+                  'the frame types the entry writer emits and is_first/is_last_frame_of_record disagree: %s, is_first %s, is_last %s' % (prot_tab, tf, tl))
+    elif not ft or not isf or not isl:
         ctx.missing('frame-type-tables', 'frame_type(bool,bool) / is_first / is_last not found')
     else:
         b = ft[0]
@@ -1279,6 +1291,183 @@ def cd11(ctx):
         ctx.missing('buffers', 'expected the record writer scratch buffer and the batch spare buffer, found %d' % n)
 
 
+def _cut_of(b, l, depth=0):
+    """When the slice held in local l is one side of a cut of another slice: (side, base_local, k_ids) with side
+    'prefix' | 'suffix', base_local the local the cut slice was read from (through re-borrows), k_ids the identity of
+    the cut position (origins of the length operand). Follows moves and re-borrows. None otherwise."""
+    from rules_bytes import ref_root
+    if l is None or depth > 10:
+        return None
+    ds = b.defs.get(l, [])
+    if len(ds) != 1:
+        return None
+    (p, kind, data) = ds[0]
+    def k_ids(op):
+        ol = op_local(op)
+        if ol is None:
+            return frozenset([('const', op_const_bits(op))])
+        ids = set()
+        for o in b.trace_local(ol):
+            if o[0] == 'call':
+                ids.add(('call', o[1].point))
+            elif o[0] in ('rv', 'place', 'const'):
+                ids.add((o[0], o[1]))
+            elif o[0] == 'param':
+                ids.add(('param', o[1]))
+        return frozenset(ids)
+    def base_of(al):
+        r_ = ref_root(b, al) if al is not None else None
+        if r_ is None:
+            return None
+        if r_[0] in ('local', 'param'):
+            return r_[1]
+        return None
+    if kind == 'call':
+        cs = data
+        if re.search(r'Index<std::ops::RangeTo<usize>> for \[u8\]', cs.name) or re.search(r'Index<std::ops::RangeFrom<usize>> for \[u8\]', cs.name):
+            side = 'prefix' if 'RangeTo<' in cs.name else 'suffix'
+            rl = cs.arg_local(1)
+            for o in (b.trace_local(rl) if rl is not None else []):
+                if o[0] == 'rv' and o[2]['k'] == 'agg' and o[2].get('ops'):
+                    base = base_of(cs.arg_local(0))
+                    if base is not None:
+                        return (side, base, k_ids(o[2]['ops'][0]))
+            return None
+        if method_name(cs.name) in VIEW_SAME and cs.args:
+            return _cut_of(b, cs.arg_local(0), depth + 1)
+        return None
+    if kind == 'assign' and not data['place']['p']:
+        rv = data['rv']
+        pl = rv['place'] if rv['k'] == 'ref' else (rv['op']['place'] if rv['k'] in ('use', 'cast') and rv['op']['k'] in ('copy', 'move') else None)
+        if pl is None:
+            return None
+        proj = [e for e in pl['p'] if e['k'] != 'deref']
+        if not proj:
+            return _cut_of(b, pl['l'], depth + 1)
+        if len(proj) == 1 and proj[0]['k'] == 'field':
+            src = b.single_def(pl['l'])
+            if src and src[1] == 'call' and re.search(r'::split_at(_mut|_checked|_unchecked)?$', src[2].name) and len(src[2].args) > 1:
+                base = base_of(src[2].arg_local(0))
+                if base is not None:
+                    return ('prefix' if proj[0]['i'] == 0 else 'suffix', base, k_ids(src[2].args[1]))
+    return None
+
+
+def _loop_cuts(b, L, w, inside):
+    """Points inside loop L where the loop-carried remaining payload P is re-assigned to the SUFFIX of a cut of P whose
+    PREFIX (same cut position) is the payload handed to the write call w: `let (chunk, rest) = p.split_at(k); p = rest;
+    write(chunk)` in any spelling (two slicings, split_at, through helper locals)."""
+    out = []
+    pay = None
+    for a in w.args:
+        al = op_local(a)
+        if al is not None and b.local_ty(al) == '&[u8]':
+            pay = _cut_of(b, al)
+    if pay is None or pay[0] != 'prefix':
+        return out
+    (_side, P, k) = pay
+    for (p2, kind2, data2) in b.defs.get(P, []):
+        if kind2 != 'assign' or p2 not in inside or data2['place']['p']:
+            continue
+        rv = data2['rv']
+        src = None
+        if rv['k'] in ('use', 'cast') and rv['op']['k'] in ('copy', 'move') and not rv['op']['place']['p']:
+            src = _cut_of(b, rv['op']['place']['l'])
+        elif rv['k'] in ('use', 'cast') and rv['op']['k'] in ('copy', 'move'):
+            # P = (split).1 directly
+            pl = rv['op']['place']
+            proj = [e for e in pl['p'] if e['k'] != 'deref']
+            sd = b.single_def(pl['l'])
+            if len(proj) == 1 and proj[0]['k'] == 'field' and proj[0]['i'] == 1 and sd and sd[1] == 'call' and re.search(r'::split_at(_mut|_checked|_unchecked)?$', sd[2].name):
+                from rules_bytes import ref_root
+                r_ = ref_root(b, sd[2].arg_local(0)) if sd[2].arg_local(0) is not None else None
+                if r_ is not None and r_[0] in ('local', 'param'):
+                    ol = op_local(sd[2].args[1])
+                    ids = set()
+                    for o in (b.trace_local(ol) if ol is not None else []):
+                        ids.add(('call', o[1].point) if o[0] == 'call' else (o[0], o[1]))
+                    src = ('suffix', r_[1], frozenset(ids) if ol is not None else frozenset([('const', op_const_bits(sd[2].args[1]))]))
+        elif rv['k'] == 'ref':
+            pl = rv['place']
+            if all(e['k'] == 'deref' for e in pl['p']):
+                src = _cut_of(b, pl['l'])
+        if src is not None and src[0] == 'suffix' and src[1] == P and (src[2] & k):
+            out.append(p2)
+    return out
+
+
+FT = 'frame::header::FrameType'
+
+
+def frame_protocol(ctx):
+    """What the entry writer's frame loop hands to the frame writer, by abstract interpretation (absint.py): for the
+    first and for later iterations, and for "nothing remains after this frame" true / false, the FrameType value that
+    reaches write_frame and whether the loop is then left or goes round. Independent of how the state is kept (bool,
+    two-variant enum, struct field, helper function): {'obs': {(first, last): {variants}}, 'after': {(first, last):
+    {'exit' | 'next'}}, 'body': Body, 'site': CallSite, 'exhausted': bool} or None when there is no such loop."""
+    if hasattr(ctx, '_frame_protocol'):
+        return ctx._frame_protocol
+    from absint import AbsInt, Path, UNK
+    res = None
+    for b in ctx.f.bodies.values():
+        if b.generic_dup() or not b.path.startswith('recordlog::writer::RecordWriter'):
+            continue
+        loops = b.loops()
+        wf = [cs for cs in b.calls if cs.node is not None and ctx.E.call_may(cs, 'WRITE') and any(cs.block in L['blocks'] for L in loops)]
+        if not wf:
+            continue
+        w = wf[0]
+        L = [L for L in loops if w.block in L['blocks']][0]
+        ft_idx = None
+        cal = ctx.f.bodies.get(w.node)
+        for i in range(len(w.args)):
+            if cal is not None and strip_crate(cal.local_ty(i + 1)) == FT:
+                ft_idx = i
+        if ft_idx is None:
+            continue
+        ai = AbsInt(ctx)
+        obs, after = {}, {}
+        def on_call(p, cs, args):
+            nm = cs.name
+            if re.search(r'<impl \[u8\]>::is_empty$', nm) or re.search(r'<impl \[u8\]>::len$', nm):
+                from rules_bytes import ref_root
+                r_ = ref_root(b, cs.arg_local(0)) if cs.arg_local(0) is not None else None
+                key = 'it%d' % p.data.get('iter', 0)
+                if nm.endswith('is_empty'):
+                    return [(('cond', 'empty:%s' % key, True), None)]
+                return [(('len', key), None)]
+            if cs is w:
+                it = p.data.get('iter', 0)
+                last = p.conds.get('empty:it%d' % it)
+                v = args[ft_idx] if ft_idx < len(args) else UNK
+                var = v[2] if isinstance(v, tuple) and v and v[0] == 'adt' and strip_crate(v[1]) == FT else None
+                obs.setdefault((it <= 1, last), set()).add(var)
+                R = 'std::result::Result'
+                return [(('adt', R, 'Ok', (UNK,)), {'data': {'pending': (it <= 1, last)}}), (('adt', R, 'Err', (UNK,)), {'data': {'write_failed': True}})]
+            return None
+        def on_block(p, bi):
+            inside = bi in L['blocks']
+            if bi == L['header']:
+                pend = p.data.pop('pending', None)
+                if pend is not None:
+                    after.setdefault(pend, set()).add('next')
+                p.data['iter'] = p.data.get('iter', 0) + 1
+                if p.data['iter'] > 3:
+                    return 'iter-limit'
+            elif not inside and p.data.get('iter', 0) >= 1:
+                pend = p.data.pop('pending', None)
+                if pend is not None:
+                    # leaving through the error edge of the write itself is not the loop's decision
+                    after.setdefault(pend, set()).add('exit')
+                return 'left-loop'
+            return None
+        ai.run(b, Path(b.points[b.entry][0], {}, {}, [], {}), on_call=on_call, on_block=on_block)
+        res = {'obs': obs, 'after': after, 'body': b, 'site': w, 'exhausted': ai.exhausted}
+        break
+    ctx._frame_protocol = res
+    return res
+
+
 @rule('WR1', ['C07', 'C12'], floor=3, template='loop-progress')
 def wr1(ctx):
     """The entry writer's frame loop makes progress: the remaining payload is re-sliced past the bytes just
@@ -1366,6 +1555,8 @@ def wr1(ctx):
                                     if (o2['place']['l'] == pl['l'] and [e['i'] for e in o2['place']['p'] if e['k'] == 'field'][:1] == [1]) or \
                                             (not o2['place']['p'] and is_field_of(o2['place']['l'], pl['l'], 1)):
                                         resliced.append(p2)
+        if not resliced:
+            resliced = _loop_cuts(b, L, w, inside)
         n += 1
         ok_i = bool(resliced) and hdr not in b.reach_after(hdr, avoid=set(resliced) | set(outside))
         ctx.check(ok_i, '%s:payload-advances' % b.path, where(b, w.point), 'every round re-slices the remaining payload past the frame just written',
@@ -1382,6 +1573,13 @@ def wr1(ctx):
             first_var = op_local(src[2]['rv']['op']) if src and src[1] == 'assign' and src[2]['rv']['k'] == 'use' else a0
             clears = [p for (p, kind, data) in b.defs.get(first_var, []) if kind == 'assign' and data['rv']['k'] == 'use' and op_const_bits(data['rv']['op']) == 0 and p in inside]
             ok_ii = bool(clears) and hdr not in b.reach_after(hdr, avoid=set(clears) | set(outside))
+        # the same question asked of the VALUES (abstract interpretation of the loop, independent of how the flag is kept:
+        # bool, two-variant enum, struct field): frames of later rounds are typed Middle / Last
+        prot = frame_protocol(ctx)
+        decided = prot is not None and prot['body'] is b and not prot['exhausted'] and \
+            all(len(prot['obs'].get(k_, ())) == 1 and None not in prot['obs'][k_] for k_ in ((True, True), (True, False), (False, True), (False, False)))
+        if decided:
+            ok_ii = prot['obs'][(False, False)] | prot['obs'][(False, True)] <= {'Middle', 'Last'}
         n += 1
         ctx.check(ok_ii, '%s:first-flag-cleared' % b.path, where(b, w.point), 'the is-first flag is set to false on every path round the loop',
                   'the first-frame flag is not cleared on every round: later frames of an entry would be typed First/Full and start a new entry at the reader')
@@ -1394,6 +1592,9 @@ def wr1(ctx):
             fe_in = hdr in b.reach([fe[1]], avoid=outside)
             if te_out and fe_in:
                 ok_iii = True
+        if decided:
+            af = prot['after']
+            ok_iii = all(af.get((f_, True)) == {'exit'} and af.get((f_, False)) == {'next'} for f_ in (True, False))
         n += 1
         ctx.check(ok_iii, '%s:ends-when-empty' % b.path, where(b, w.point), 'the loop is left exactly on the edge where no payload remains',
                   'the frame loop does not end exactly when the remaining payload is empty (inverted / missing test): entries would be cut short or never end')
